@@ -9,6 +9,7 @@
 import XsVerif.Lemmas.Incl
 import XsVerif.Model.Restriction
 import XsVerif.Props.C16
+import XsVerif.Lemmas.Facets
 
 namespace XsVerif.Props.C14
 open XsVerif XsVerif.Rx XsVerif.CM XsVerif.Wildcard XsVerif.Restr
@@ -164,9 +165,10 @@ theorem elem_restriction_sound (C : Ctx) (i j : Nat) (names onames : List QN) (l
 /-- Wildcard against wildcard (wildcards.py:214-267, 491-493).
     Full statement (false for the pinned code, see `wildcard_zero_counterexample`):
       anyRestr … = true → Incl self other
-    Proved under the guard `hi ≠ some 0`; names of the xsi namespace are excluded as in C16. -/
+    Proved under the guard `hi ≠ some 0`, for wildcards of any two target namespaces; names of the xsi
+    namespace are excluded as in C16. -/
 theorem wildcard_restriction_sound_partial (C : Ctx) (i j : Nat) (w ow : Wc) (lo olo : Nat)
-    (hi ohi : Option Nat) (htns : w.tns = ow.tns) (hguard : hi ≠ some 0)
+    (hi ohi : Option Nat) (hguard : hi ≠ some 0)
     (h : anyRestr C (.leaf (.any i w) lo hi) (.leaf (.any j ow) olo ohi) true = true) :
     ∀ word : List QN, (∀ q ∈ word, q.ns ≠ xsiNs) →
       InModel (.leaf (.any i w) lo hi) word → InModel (.leaf (.any j ow) olo ohi) word := by
@@ -190,7 +192,7 @@ theorem wildcard_restriction_sound_partial (C : Ctx) (i j : Nat) (w ow : Wc) (lo
     simp only [Leaf.matches] at ha ⊢
     have hA : allows w (fun _ => false) (fun _ => false) q = true := by
       simpa [allows, allowsQ] using ha
-    have := C16.restriction_sound w ow _ _ htns h (fun _ => false) (fun _ => false) q (hx q hq) hA
+    have := C16.restriction_sound w ow _ _ h (fun _ => false) (fun _ => false) q (hx q hq) hA
     simpa [allows, allowsQ] using this
 
 def wAny : Wc := { ns := .any, tns := "urn:t" }
@@ -384,5 +386,146 @@ example : okTrue (elemRestr C10 (fun _ _ _ => .ok false) (.leaf (.elem 0 [qa]) 1
 -- a pass of the sequence rule that skips an emptiable base item
 example : okTrue (seqPass11 (isRestr C11 5) true [el 0 qa 1 (some 1)]
     [el 1 qb 0 (some 1), el 2 qa 1 (some 2)]) = true := by decide
+
+set_option linter.unusedSectionVars false
+
+/-! ## Facets: the build checks on a simple-type restriction step (facets.py, simple_types.py:148-289) -/
+section Facets
+open XsVerif.Facets XsVerif.Datatypes
+
+variable {α : Type} [LE α] [LT α] [DecidableLE α] [DecidableLT α] [DecidableEq α]
+  [Std.IsLinearOrder α] [Std.LawfulOrderLT α]
+
+/-- "restricted facets accept a subset of values": when the build reports no error for the restriction
+    step `D` of a type with facet chain `C`, every value that satisfies the effective facets of the
+    derived type (its own facets overriding the inherited ones, kind by kind — the {facets} of the XSD
+    type definition, what `get_facet` reports) satisfies the effective facets of the base type.
+    Any linear order of values, any chain length, fixed or not. -/
+theorem facet_restriction_narrows (C : Chain α) (D : FSet α) (h : accepts C D = true) :
+    ∀ v, validEff (D :: C) v = true → validEff C v = true :=
+  eff_narrows C D h
+
+/-- On a type all of whose restriction steps were accepted, the effective facets denote exactly the
+    set of values that the implementation's chained validation (`raw_decode`: base type first, then the
+    step's validators) accepts: the overriding reading of the schema and the code's reading coincide. -/
+theorem facet_effective_iff_chain (C : Chain α) (h : Accepted C) (v : Val α) :
+    validEff C v = true ↔ validChain C v = true :=
+  eff_iff_chain C h v
+
+/-- The chained validation narrows by construction, whatever the build checked: a value valid for the
+    derived type passed every validator of the base type. -/
+theorem facet_derived_valid_base_valid (C : Chain α) (D : FSet α) (v : Val α)
+    (h : validChain (D :: C) v = true) : validChain C v = true := by
+  simp only [validChain, List.all_cons, Bool.and_eq_true] at h ⊢
+  exact h.2
+
+/-- Without the build checks the effective facets of a derived type need not narrow: a step that
+    lowers minInclusive is refused, and if it were not, 0 would satisfy the effective facets of the derived
+    type only (non-vacuity of `accepts` in `facet_restriction_narrows`). -/
+theorem facet_unchecked_widening_counterexample :
+    let C : Chain Int := [{ minInc := some ⟨{ ord := 5 }, false⟩ }]
+    let D : FSet Int := { minInc := some ⟨{ ord := 0 }, false⟩ }
+    accepts C D = false ∧ validEff (D :: C) { ord := 0 } = true ∧ validEff C { ord := 0 } = false := by
+  decide
+
+/-- a bound facet of an accepted step is itself a value of the base type (minInclusive / maxInclusive;
+    for the exclusive bounds up to an equal exclusive bound of the base) -/
+theorem facet_bound_is_base_value (C : Chain α) (D : FSet α) (h : accepts C D = true) :
+    (∀ f, D.minInc = some f → validChain C f.v = true) ∧
+    (∀ f, D.maxInc = some f → validChain C f.v = true) ∧
+    (∀ f, D.minExc = some f → validChainBut C (some f.v.ord) none f.v = true) ∧
+    (∀ f, D.maxExc = some f → validChainBut C none (some f.v.ord) f.v = true) ∧
+    (∀ l, D.enum = some l → ∀ e ∈ l, validChain C e = true) := by
+  rw [Facets.accepts_iff] at h
+  obtain ⟨_, _, _, hb, _, he, _, _, _⟩ := h
+  refine ⟨fun f hf => bound_minInc C D hb f hf, fun f hf => bound_maxInc C D hb f hf,
+    fun f hf => bound_minExc C D hb f hf, fun f hf => bound_maxExc C D hb f hf, ?_⟩
+  intro l hl e hm
+  simp only [enumErrs, hl, err_nil, Bool.not_eq_false', List.all_eq_true] at he
+  exact he e hm
+
+/-- a fixed facet of the base cannot be changed by an accepted step (facets.py:82-85) -/
+theorem facet_fixed_preserved (C : Chain α) (D : FSet α) (h : accepts C D = true) :
+    (∀ f b, D.length = some f → nearest (·.length) C = some b → b.fixed = true → f.v = b.v) ∧
+    (∀ f b, D.minLength = some f → nearest (·.minLength) C = some b → b.fixed = true → f.v = b.v) ∧
+    (∀ f b, D.maxLength = some f → nearest (·.maxLength) C = some b → b.fixed = true → f.v = b.v) ∧
+    (∀ f b, D.minInc = some f → nearest (·.minInc) C = some b → b.fixed = true → f.v.ord = b.v.ord) ∧
+    (∀ f b, D.minExc = some f → nearest (·.minExc) C = some b → b.fixed = true → f.v.ord = b.v.ord) ∧
+    (∀ f b, D.maxInc = some f → nearest (·.maxInc) C = some b → b.fixed = true → f.v.ord = b.v.ord) ∧
+    (∀ f b, D.maxExc = some f → nearest (·.maxExc) C = some b → b.fixed = true → f.v.ord = b.v.ord) ∧
+    (∀ f b, D.totalDigits = some f → nearest (·.totalDigits) C = some b → b.fixed = true → f.v = b.v) ∧
+    (∀ f b, D.fractionDigits = some f → nearest (·.fractionDigits) C = some b → b.fixed = true → f.v = b.v) ∧
+    (∀ f b, D.ws = some f → nearest (·.ws) C = some b → b.fixed = true → f.v = b.v) := by
+  rw [Facets.accepts_iff] at h
+  have hf := h.1
+  simp only [fixedErrs, List.append_eq_nil_iff] at hf
+  obtain ⟨⟨⟨⟨⟨⟨⟨⟨⟨h1, h2⟩, h3⟩, h4⟩, h5⟩, h6⟩, h7⟩, h8⟩, h9⟩, h10⟩ := hf
+  refine ⟨?_, ?_, ?_, ?_, ?_, ?_, ?_, ?_, ?_, ?_⟩ <;> intro f b hD hn hfx
+  · simpa [fixedErr, hD, hn, err_nil, hfx, neNat] using h1
+  · simpa [fixedErr, hD, hn, err_nil, hfx, neNat] using h2
+  · simpa [fixedErr, hD, hn, err_nil, hfx, neNat] using h3
+  · simpa [fixedErr, hD, hn, err_nil, hfx, neOrd] using h4
+  · simpa [fixedErr, hD, hn, err_nil, hfx, neOrd] using h5
+  · simpa [fixedErr, hD, hn, err_nil, hfx, neOrd] using h6
+  · simpa [fixedErr, hD, hn, err_nil, hfx, neOrd] using h7
+  · simpa [fixedErr, hD, hn, err_nil, hfx, neNat] using h8
+  · simpa [fixedErr, hD, hn, err_nil, hfx, neNat] using h9
+  · simpa [fixedErr, hD, hn, err_nil, hfx, neWs] using h10
+
+/-- whiteSpace can only move along preserve → replace → collapse (facets.py:139-150) -/
+theorem facet_whitespace_monotone (C : Chain α) (D : FSet α) (h : accepts C D = true)
+    (f b : F Ws) (hD : D.ws = some f) (hn : nearest (·.ws) C = some b) :
+    wsRank b.v ≤ wsRank f.v := by
+  rw [Facets.accepts_iff] at h
+  have hw := h.2.1
+  simp only [wsErrs, hD, hn, Option.map_some] at hw
+  cases hf : f.v <;> cases hb : b.v <;> simp [hf, hb, wsRank, err] at hw ⊢
+
+/-- Full statement at the lexical level (false for the code, and for XSD itself):
+      accepts C D → ∀ text, lexValid (D :: C) text → lexValid C text
+    whiteSpace is a pre-lexical facet: a derived type that collapses white space accepts ' abc ' as the
+    three-character value 'abc', while its base type (length 3, white space preserved) sees five
+    characters.  Replayed on the real code. -/
+theorem facet_whitespace_lexical_counterexample :
+    let C : Chain Int := [{ length := some ⟨3, false⟩ }, { ws := some ⟨.preserve, false⟩ }]
+    let D : FSet Int := { ws := some ⟨.collapse, false⟩ }
+    accepts C D = true ∧ lexValid (fun _ => 0) (D :: C) " abc ".toList = true ∧
+      lexValid (fun _ => 0) C " abc ".toList = false := by
+  decide
+
+/-- lexical level, proved part: on a type whose steps were all accepted, when the step does not change
+    the effective white space value, texts valid for the derived type are valid for the base type
+    (the text reaching the validators is the one normalised with the type's own value,
+    `normChain_eq`: a coarser normalisation after a finer one changes nothing) -/
+theorem facet_lexical_narrows_partial (keyOf : Str → Nat) (C : Chain Int) (D : FSet Int)
+    (hacc : Accepted (D :: C)) (hws : effWs (D :: C) = effWs C) (s : Str)
+    (h : lexValid keyOf (D :: C) s = true) : lexValid keyOf C s = true := by
+  simp only [lexValid] at h ⊢
+  rw [normChain_eq _ hacc, hws] at h
+  rw [normChain_eq _ hacc.2]
+  exact facet_derived_valid_base_valid C D _ h
+
+end Facets
+/-! ### non-vacuity (facets) -/
+section
+open XsVerif.Facets
+
+-- an accepted two-step chain on integers whose derived step tightens both bounds and adds an enumeration
+def fB : FSet Int := { minInc := some ⟨{ ord := 0 }, false⟩, maxExc := some ⟨{ ord := 10 }, false⟩ }
+def fD : FSet Int := { minExc := some ⟨{ ord := 2 }, false⟩, maxInc := some ⟨{ ord := 8 }, false⟩,
+                       enum := some [{ ord := 3 }, { ord := 8 }] }
+example : accepts [fB] fD = true ∧ Accepted [fD, fB] ∧ validEff [fD, fB] { ord := 3 } = true ∧
+    validEff [fD, fB] { ord := 5 } = false :=
+  ⟨by decide, ⟨by decide, by decide, trivial⟩, by decide, by decide⟩
+-- refused steps: a widened bound, an exclusive bound equal to the base maximum, a changed fixed facet
+example : checkStep [fB] ({ minInc := some ⟨{ ord := -1 }, false⟩ } : FSet Int) = [.boundInvalid] ∧
+    checkStep [({ maxInc := some ⟨{ ord := 5 }, false⟩ } : FSet Int)] { minExc := some ⟨{ ord := 5 }, false⟩ }
+      = [.alsoMaximum] ∧
+    checkStep [({ maxLength := some ⟨3, true⟩ } : FSet Int)] { maxLength := some ⟨2, false⟩ } = [.fixedChanged] := by
+  decide
+-- an exclusive bound equal to the base's exclusive bound is accepted (the ignored failure)
+example : accepts [({ minExc := some ⟨{ ord := 5 }, false⟩ } : FSet Int)] { minExc := some ⟨{ ord := 5 }, false⟩ } = true := by
+  decide
+end
 
 end XsVerif.Props.C14
